@@ -48,7 +48,9 @@ UTruncateAndAppend(lg, ents) ==
     LET after == ents[1].i
     IN IF after = lg.offset + Len(lg.uents) THEN [lg EXCEPT !.uents = @ \o ents]
        ELSE IF after <= lg.offset THEN [lg EXCEPT !.offset = after, !.uents = ents]
-       ELSE [lg EXCEPT !.uents = SubSeq(@, 1, after - lg.offset) \o ents]
+       \* (a gap, after > offset + Len, is excluded for well-formed appends; the clamp only keeps the operator total
+       \*  when a recorded execution hands it a malformed one)
+       ELSE [lg EXCEPT !.uents = SubSeq(@, 1, IF after - lg.offset <= Len(@) THEN after - lg.offset ELSE Len(@)) \o ents]
 
 (* ---- mutators ---- *)
 LAppendFatal(lg, ents) == ents # <<>> /\ ents[1].i - 1 < lg.committed
